@@ -223,16 +223,24 @@ def parallelize(  # noqa: C901
             squeue.cancel_join_thread()
 
         result_list = []
-        for (task_idx, (args, kwargs)) in enumerate(sub_args_list):
-            if rss is not None:
-                kwargs['rss'] = rss
-            if tl is not None:
-                kwargs['tl'] = tl
-            _verif_hook(pid, task_idx)
-            result_list.append(func(*args, **kwargs))
+        try:
+            for (task_idx, (args, kwargs)) in enumerate(sub_args_list):
+                if rss is not None:
+                    kwargs['rss'] = rss
+                if tl is not None:
+                    kwargs['tl'] = tl
+                _verif_hook(pid, task_idx)
+                result_list.append(func(*args, **kwargs))
 
-            if squeue is not None:
-                squeue.put((pid, task_idx))
+                if squeue is not None:
+                    squeue.put((pid, task_idx))
+        except BaseException:
+            # The master process reads the log records of this process only
+            # after it got the result record of this process, which will not
+            # be sent. Hence, this process must not wait at its end until all
+            # its log records have been read.
+            lqueue.cancel_join_thread()
+            raise
 
         rqueue.put((pid, result_list, tl))
         _verif_hook(pid, None, rqueue)
